@@ -608,6 +608,31 @@ def run(tier, seed, replay=None):
             ck.notes["notifier_events_decided_by_measured_window"] = dec[0] if dec else 0
     except RuntimeError as e:
         ck.tie(name, False, str(e)[-800:])
+    # agent level (L1 harness: real handlers, real bess plug-in): the report is addressed with the control plane's current
+    # SEID also after a Session Modification changed the CP F-SEID
+    if replay is None:
+        try:
+            import l1
+            from props.l1common import run_soak
+            d2 = {}
+            run_soak(ck, build_harness(), rng, l1.mon_c13_reports, d2, scenarios=l1.report_scenarios(rng))
+            ck.notes["agent_level_report_scenarios"] = d2
+        except HarnessError as e:
+            ck.tie("agent-level report scenarios run", False, str(e)[-800:])
+    # UP4: the digest listener and its rate-limit memory survive the loss and re-establishment of the P4Runtime channel
+    if replay is None:
+        try:
+            o = run_harness(build_harness(), "c13", [{"kind": "up4_reconnect"}], tag="c13up4rc", timeout=300)[0]
+            ck.evaluations += 1
+            if "panic" in o:
+                ck.fail("up4-reconnect:panic", "UP4 re-connection panicked: " + o["panic"], {"input": {"kind": "up4_reconnect"}})
+            elif "listeners" in o and any(n != 1 for n in o["listeners"]):
+                ck.fail("up4-reconnect:digest-listeners-multiply", f"digest listeners after 0..3 re-connections of the P4Runtime channel: {o['listeners']} "
+                        "(each listener keeps its own per-session timestamps, so a session notified before a re-connection is notified again inside its interval)",
+                        {"input": {"kind": "up4_reconnect"}, "impl": o})
+            ck.notes["up4_reconnect"] = o
+        except HarnessError as e:
+            ck.tie("UP4 re-connection scenario runs", False, str(e)[-800:])
     # fresh sequence numbers under concurrency: the report path, the heartbeat monitor and an agent-initiated association
     # request of ONE association draw from the same counter on different goroutines
     if replay is None:
